@@ -70,8 +70,14 @@ pub fn gen_base(w: &World, r: &mut Rng, mix: Mix, proto: Option<Proto>) -> Base 
         let g = r.pick(&w.gens);
         let def = w.schema.get(g.schema).expect("schema for gen type").clone();
         let ev = Evolve::swarm(r);
-        let mut cx = GenCtx::new(r, knobs);
-        let tv = cx.of_struct(&w.schema, &ev, &def, 1);
+        let tv = if is_recursive(&w.schema, def.name) && r.chance(1, 3) {
+            // a deep spine through the recursive fields (errors many generated-struct levels deep)
+            let d = r.range(8, 40) as usize;
+            spine(&w.schema, r, def.name, d)
+        } else {
+            let mut cx = GenCtx::new(r, knobs);
+            cx.of_struct(&w.schema, &ev, &def, 1)
+        };
         let mut b = 60;
         if r.chance(1, 6) {
             // the service-call flow: message envelope, then the generated body, read with one protocol instance
@@ -190,6 +196,15 @@ pub fn unit_c12(w: &World, seed: u64, unit: u64, tier: Tier) -> Vec<Case> {
     };
     out.push(valid(Schedule::whole(), "sched_whole"));
     out.push(valid(Schedule::bytewise(), "sched_bytewise"));
+    {
+        // the message alone, nothing after it (end of stream right at the message end)
+        let mut c = mk_case(prop, &b, unit);
+        c.bytes = b.bytes.clone();
+        c.valid_len = Some(len);
+        c.sched = Schedule::random(&mut r, len.max(1), ppct);
+        c.fault_kind = "sched_no_tail".into();
+        out.push(c);
+    }
     // every single split point for short messages, a sample otherwise
     let exhaustive_max = if tier == Tier::Thorough { 512 } else { 96 };
     if len >= 2 {
@@ -303,6 +318,16 @@ pub fn unit_c07(w: &World, seed: u64, unit: u64, tier: Tier) -> Vec<Case> {
             c.sched = s;
             c.run_mem = i == 0; // the in-memory half has one schedule
             c.fault_kind = "skip_value".into();
+            out.push(c);
+        }
+        // "arbitrary trailing data" includes none at all and a single byte
+        for extra in [0usize, 1] {
+            let mut c = mk_case(prop, &base, unit);
+            c.bytes = base.bytes.clone();
+            c.bytes.extend(std::iter::repeat(0u8).take(extra));
+            c.valid_len = Some(len);
+            c.sched = if extra == 0 { Schedule::whole() } else { Schedule::bytewise() };
+            c.fault_kind = "skip_value_short_tail".into();
             out.push(c);
         }
         // the same value as an unknown field followed by a sibling field
